@@ -182,3 +182,10 @@ Fixpoint nobig (n : node) : bool :=
   | NMap t _ | NFMap t => forallb (fun kv => nobig (snd kv)) t
   | _ => true
   end.
+
+(* C12: the calls by which a repeated key k reaches a map assembler (and is refused) *)
+Inductive DupCall (k : bytes) : list ann -> Prop :=
+| DC_entry : DupCall k [(AssembleEntry k, SErr ERepeatedKey)]
+| DC_key tries g :
+    Forall KeyTry tries -> KeyGive k g ->
+    DupCall k (ok AssembleKey :: tries ++ [(g, SErr ERepeatedKey)]).
